@@ -11,6 +11,7 @@ import (
 	"fmt"
 	"reflect"
 	"sort"
+	"strconv"
 	"strings"
 
 	"github.com/pilosa/pilosa"
@@ -337,7 +338,7 @@ func attrsPQL(m map[string]interface{}) (string, map[string]string) {
 				parts = append(parts, fmt.Sprintf("%s=%d", k, int64(v)))
 				want[k] = canonArg(int64(v))
 			} else {
-				txt := fmt.Sprintf("%v", v)
+				txt := strconv.FormatFloat(v, 'f', -1, 64)
 				if !strings.Contains(txt, ".") {
 					txt += ".5"
 					v += 0.5
@@ -408,6 +409,64 @@ func c26Extra(d *db, op simrt.Op) bool {
 			d.fail("query-error", "%s: %v", q, err)
 		}
 		return true
+	case "parsecall": // I=[seed]: a call with arguments of every kind in a random order
+		r := simrt.NewRand(uint64(I[0]))
+		type arg struct{ key, txt, want string }
+		var pool []arg
+		add := func(k, txt, want string) { pool = append(pool, arg{k, txt, want}) }
+		n1, n2 := int64(r.Intn(100)), int64(100+r.Intn(100))
+		add("i", fmt.Sprint(n1), canonArg(n1))
+		add("neg", fmt.Sprint(-n2), canonArg(-n2))
+		add("f", "12.25", canonArg(12.25))
+		add("s", pqlString(c26Strings[r.Intn(len(c26Strings))]), "")
+		add("b", simrt.Pick(r, "true", "false"), "")
+		add("nul", "null", "null")
+		add("li", fmt.Sprintf("[%d,%d]", n1, n2), fmt.Sprintf("list[%s %s]", canonArg(n1), canonArg(n2)))
+		add("gt", fmt.Sprintf("> %d", n1), "cond(> "+canonArg(n1)+")")
+		add("bt", fmt.Sprintf(">< [%d,%d]", n1, n2), fmt.Sprintf("cond(>< list[%s %s])", canonArg(n1), canonArg(n2)))
+		add("nn", "!= null", "cond(!= null)")
+		add("limit", "10", canonArg(int64(10)))
+		// fix up the wants that depend on the drawn text
+		for i := range pool {
+			switch pool[i].key {
+			case "b":
+				pool[i].want = canonArg(pool[i].txt == "true")
+			}
+		}
+		strIdx := 3
+		strVal := c26Strings[r.Intn(len(c26Strings))]
+		pool[strIdx].txt, pool[strIdx].want = pqlString(strVal), canonArg(strVal)
+		perm := r.Perm(len(pool))
+		nargs := 2 + r.Intn(len(pool)-1)
+		var parts []string
+		want := map[string]string{}
+		for _, pi := range perm[:nargs] {
+			a := pool[pi]
+			if strings.HasPrefix(a.txt, ">") || strings.HasPrefix(a.txt, "!=") {
+				parts = append(parts, a.key+" "+a.txt)
+			} else {
+				parts = append(parts, a.key+"="+a.txt)
+			}
+			want[a.key] = a.want
+		}
+		q := "Options(" + strings.Join(parts, ", ") + ")"
+		parsed, err := pql.ParseString(q)
+		if err != nil || len(parsed.Calls) != 1 {
+			d.c.Fail("parse-error", "%q: %v", q, err)
+			return true
+		}
+		for _, k := range simrt.SortedKeys(want) {
+			if got := canonArg(parsed.Calls[0].Args[k]); got != want[k] {
+				d.c.Fail("parse-value", "%q: argument %s parsed as %s, written %s", q, k, got, want[k])
+				return true
+			}
+		}
+		if len(parsed.Calls[0].Args) != len(want) {
+			d.c.Fail("parse-value", "%q: %d arguments parsed, %d written", q, len(parsed.Calls[0].Args), len(want))
+			return true
+		}
+		d.c.Probe("parse-checked")
+		return true
 	case "parseexpr": // S=[index,expr]: parse(print(ast)) must equal ast
 		e := parseExpr(S[1])
 		q := e.pql()
@@ -475,7 +534,7 @@ func genAttrJSON(r *simrt.Rand) string {
 		case 2:
 			m[fmt.Sprintf("b%d", i)] = r.Bool(0.5)
 		case 3:
-			m[fmt.Sprintf("f%d", i)] = simrt.Pick(r, 1.5, -2.25, 0.5, 1234.125)
+			m[fmt.Sprintf("f%d", i)] = simrt.Pick(r, 1.5, -2.25, 0.5, 1234.125, 0.0000001, 52.52000659, -0.000123456789)
 		default:
 			m[fmt.Sprintf("s%d", r.Intn(3))] = nil
 		}
@@ -505,6 +564,9 @@ func genC26(r *simrt.Rand, tier string) *simrt.Plan {
 		switch x := r.Intn(12); {
 		case x < 4:
 			e := g.expr(1 + r.Intn(3))
+			if r.Bool(0.3) {
+				ops = append(ops, simrt.Op{K: "parsecall", I: []int64{int64(r.Uint64() >> 2)}})
+			}
 			ops = append(ops, simrt.Op{K: "parseexpr", S: []string{g.index, e.json()}},
 				simrt.Op{K: simrt.Pick(r, "q", "count"), S: []string{g.index, e.json()}, I: []int64{g.node()}})
 		case x < 7:
